@@ -251,7 +251,10 @@ def run_case(spec, j):
         cfg = {'init': '@spd'}
       elif name in ('SCML',):
         cfg = {'basis': '@basis'}
-    s = {'est': name, 'params': cfg, 'ds': dss, 'seed': spec['hseed'] % 997}
+    # (random_state = 0 is an integer seed like any other - and the one that
+    # is falsy: one case in five uses it)
+    s = {'est': name, 'params': cfg, 'ds': dss,
+         'seed': 0 if spec['hseed'] % 5 == 0 else spec['hseed'] % 997}
     f = common.build(s, ds, preprocessor='array' if spec['prep'] else None)
     kwargs = {}
     if name in ('ITML', 'ITML_Supervised') and spec['variant'] % 2 == 0:
